@@ -385,6 +385,9 @@ func RunC15(tier string) int {
 	// transient read faults while dependency outputs are being loaded: every command that
 	// still runs must find its direct dependencies' outputs present and current, and a build
 	// that exits 0 must have left reference bytes
+	if report.Part("bintool") {
+		BinToolPart(run, st, tierN(tier, 12, 120))
+	}
 	if report.Part("reexport") {
 		ReExportPart(run, st, tierN(tier, 12, 120))
 	}
